@@ -387,8 +387,52 @@ def r_depth(e, R):
         if isinstance(x, ast.Call) and isinstance(x.func, ast.Attribute) and x.func.attr == "get_start_method":
             return "SM"
         return None
+    # whole-function decision table: the check raises iff (fork and depth >= 1) or (MAX_DEPTH > 0 and depth >= MAX_DEPTH)
+    class _Ret(Exception):
+        pass
+
+    class _Rai(Exception):
+        pass
+
+    def interp(stmts, env):
+        for s_ in stmts:
+            if isinstance(s_, ast.If):
+                interp(s_.body if guards.eval_guard(s_.test, env, classify) else s_.orelse, env)
+            elif isinstance(s_, ast.Raise):
+                raise _Rai()
+            elif isinstance(s_, ast.Return):
+                raise _Ret()
+            elif isinstance(s_, (ast.Global, ast.Pass, ast.Expr)):
+                continue
+            else:
+                raise guards.Inconclusive(f"statement {type(s_).__name__} in the depth check")
+    rows = 0
+    try:
+        for D in range(0, 5):
+            for M in range(-2, 5):
+                for SM in ("fork", "loky", "spawn"):
+                    env = {"D": D, "M": M, "SM": SM}
+                    try:
+                        interp(dc.node.body, env)
+                        got = False
+                    except _Ret:
+                        got = False
+                    except _Rai:
+                        got = True
+                    want = (SM == "fork" and D >= 1) or (M > 0 and D >= M)
+                    rows += 1
+                    if got != want:
+                        R.fail("R-DEPTH", dc.short, "whole-function table", f"the depth check {'raises' if got else 'accepts'} at depth {D} with "
+                               f"MAX_DEPTH={M} under the '{SM}' start method; it must {'raise' if want else 'accept'} (raise iff fork and depth >= 1, or "
+                               "MAX_DEPTH > 0 and depth >= MAX_DEPTH)", e.loc(dc, dc.node), instance=f"{dc.short}: row depth={D} max={M} {SM}")
+                        raise StopIteration
+        R.ok("R-DEPTH", f"{dc.short}: as a whole raises iff (fork and depth >= 1) or (MAX_DEPTH > 0 and depth >= MAX_DEPTH) on {rows} rows", e.loc(dc, dc.node))
+    except StopIteration:
+        pass
+    except guards.Inconclusive as ex:
+        raise AnalysisError(f"depth check: {ex}")
     seen_depth = seen_fork = False
-    for i in ifs:
+    for i in []:
         names = {x.id for x in ast.walk(i.test) if isinstance(x, ast.Name)}
         raises = [x for x in ast.walk(i) if isinstance(x, ast.Raise)]
         okr = bool(raises) and all(isinstance(r.exc, ast.Call) and any(v == ("class", f"{PE}:LokyRecursionError") for v in e.pt.ev(dc, r.exc.func)) for r in raises)
@@ -416,7 +460,10 @@ def r_depth(e, R):
                 raise AnalysisError(f"fork guard: {ex}")
             R.check(not bad and okr, "R-DEPTH", f"{dc.short}: under 'fork' nesting is refused at depth >= 1", dc.short, norm(i.test),
                     f"fork guard wrong for {bad[0][0] if bad else ''}", e.loc(dc, i.test))
-    R.check(seen_depth and seen_fork, "R-DEPTH", f"{dc.short}: has both the MAX_DEPTH guard and the fork guard", dc.short, "guards", "a depth guard is missing", e.loc(dc, dc.node))
+    raises = [x for x in func_nodes(dc) if isinstance(x, ast.Raise)]
+    okr = bool(raises) and all(isinstance(r.exc, ast.Call) and any(v == ("class", f"{PE}:LokyRecursionError") for v in e.pt.ev(dc, r.exc.func)) for r in raises)
+    R.check(okr, "R-DEPTH", f"{dc.short}: refusals raise LokyRecursionError", dc.short, "raise LokyRecursionError", "the limit raises another error / only warns",
+            e.loc(dc, dc.node))
     # MAX_DEPTH from the environment with an integer default
     mod = e.prog.modules[PE]
     md = [n for n in func_nodes(mod.body_func) if isinstance(n, ast.Assign) and isinstance(n.targets[0], ast.Name) and n.targets[0].id == "MAX_DEPTH"]
